@@ -362,9 +362,17 @@ class Effects:
         return [self._subst_event(e, mapping, node, label) for e in callee]
 
     def _subst_event(self, e: Event, mapping, root_node, label) -> Event:
-        t = normalise(_subst_holes(e.target, mapping)) if e.target is not None else None
-        t2 = normalise(_subst_holes(e.source, mapping)) if e.source is not None else None
+        t = self._subst_norm(e.target, mapping)
+        t2 = self._subst_norm(e.source, mapping)
         return Event(e.kind, t, t2, e.site, root_node if root_node is not None else e.root_node, ([label] if label else []) + e.chain, e.detail, e.ctx)
+
+    def _subst_norm(self, t, mapping):
+        if t is None:
+            return None
+        r = _subst_holes(t, mapping)
+        if r is t or r == t:
+            return t
+        return normalise(r)
 
     def _term(self, expr, ctx: Ctx):
         memo = self.__dict__.setdefault('_term_memo', {})
